@@ -92,6 +92,20 @@ main (void)
 	psf->float_max = -1.0 ;
 	VASSUME (nd_normd == SF_TRUE || nd_normd == SF_FALSE) ;
 	psf->norm_double = nd_normd ;
+	/* the file may carry a PEAK chunk whose values say anything (stale after an edit, zero after sf_write_raw): the CALC
+	** commands measure the samples and must not be satisfied by it */
+	{	int nd_haspeak = nondet_int () ;
+		double nd_pk [CH] ;
+		ND_FILL (nd_pk, CH, double) ;
+		if (nd_haspeak == 1)
+		{	psf->peak_info = peak_info_calloc (CH) ;
+			VASSUME (psf->peak_info != NULL) ;
+			for (k = 0 ; k < CH ; k++)
+			{	VASSUME (nd_pk [k] == nd_pk [k] && nd_pk [k] >= 0.0 && nd_pk [k] < 1e30) ;
+				psf->peak_info->peaks [k].value = nd_pk [k] ;
+				} ;
+			} ;
+	}
 	for (k = 0 ; k < CH ; k++) ref [k] = 0.0 ;
 	ND_FILL (nd_stream, FR_MAX * CH, double) ;
 	for (k = 0 ; k < FR_MAX * CH ; k++)
